@@ -302,19 +302,19 @@ fn arb_domain_value(numbers: BoxedStrategy<String>, dups: bool) -> BoxedStrategy
 
 pub fn run(ctx: &mut Ctx) {
 	if ctx.wants("J_serde_json_values") {
-		let n = ctx.pick(100_000, 1_500_000);
+		let n = ctx.pick(250_000, 1_500_000);
 		let fam = Fam::new("J_serde_json_values", "proptest: serde_json values (PosInt/NegInt/Float numbers incl. u64::MAX, i64::MIN, -0.0, subnormals, 1e+-300, random bit patterns; arbitrary strings and keys; nesting): into_serde_json(from_serde_json(j)) == j; from_serde_json stores exactly serde_json's Display text; the From impls agree; a float difference is attributed to the open finding only when serde_json's own FromStr mis-rounds that very token by one ulp and the result equals that value; non-trivial = a non-integer float and an object with >= 2 keys", false);
 		let fam = run_proptest(ctx, fam, n, arb_sj_value, |j| outcome(from_into(j)), |j| json!({"serde_json": j}));
 		ctx.add(fam);
 	}
 	if ctx.wants("S_json_syntax_values_in_domain") {
-		let n = ctx.pick(100_000, 1_500_000);
+		let n = ctx.pick(250_000, 1_500_000);
 		let fam = Fam::new("S_json_syntax_values_in_domain", "proptest: json-syntax values of the stated domain (duplicate-free; numbers = 64-bit integers or finite doubles in arbitrary spellings): from_serde_json(into_serde_json(v)) equals v up to entry order and number spelling (same integer or same double); same attribution rule for the open finding; non-trivial = a non-integer number and an object with >= 2 keys", false);
 		let fam = run_proptest(ctx, fam, n, || arb_domain_value(arb_domain_number(), false), |v| outcome(into_from(v)), |v| json!({"value": v.encode()}));
 		ctx.add(fam);
 	}
 	if ctx.wants("U_unrestricted_no_panic") {
-		let n = ctx.pick(100_000, 1_500_000);
+		let n = ctx.pick(250_000, 1_500_000);
 		let fam = Fam::new("U_unrestricted_no_panic", "proptest: unrestricted json-syntax values (duplicate keys, every number spelling up to 400 digits, beyond the double range): neither direction may panic; non-trivial = duplicate keys or a number beyond the double range", false);
 		let fam = run_proptest(ctx, fam, n, || arb_domain_value(prop_oneof![3 => gen::arb_number(true), 1 => super::c09::arb_respelled_double()].boxed(), true), |v| outcome(no_panic(v)), |v| json!({"value": v.encode()}));
 		ctx.add(fam);
